@@ -181,7 +181,7 @@ def run(pid, tier, seed, a, t0):
     P = PROPS[pid]
     src = Source()
     generic = load_contracts(src)
-    timeout = a.timeout or (12 if tier == 'quick' else 60)
+    timeout = a.timeout or (25 if tier == 'quick' else 90)
     all_results = []
     oor_all = []
     stats_all = {'functions': 0, 'paths': 0, 'gen_s': 0.0, 'solve_s': 0.0}
@@ -619,6 +619,13 @@ def write_evidence(pid, P, tier, seed, results, discharged, failed, open_, oor, 
         samples.append({'obligation': r.name, 'backend': 'syntactic' if r.trivial else r.result.solver,
                         'secs': 0 if r.trivial else round(r.result.secs, 3)})
     kf_ob = len(known_hits)
+    hyps = []
+    if any(str(f).startswith('ghost:') for f in functions):
+        # hypotheses under which the Layer-B lemmas of this property are proved (traits of sub-constructs, domain restrictions)
+        import contracts.ghostreg as _g
+        for h in _g.HYPOTHESES:
+            if not re.match(r'C\d\d', h) or h.startswith(pid):
+                hyps.append('hypothesis of the lemmas (not a fact about the code): ' + h)
     ev = {
         'property_id': pid, 'tier': tier, 'seed': seed, 'level': P.get('level', 'proof'),
         'coverage': {
@@ -640,9 +647,9 @@ def write_evidence(pid, P, tier, seed, results, discharged, failed, open_, oor, 
             'slow_obligations': slow[:20],
             'tables_enumerated': extras.get('tables', []),
             'bounded_standins': extras.get('bounded', []),
-            'explanation': P.get('explanation', ''),
+            'explanation': P.get('explanation', '') or P.get('level_text', ''),
         },
-        'assumptions': P.get('assumptions', []),
+        'assumptions': P.get('assumptions', []) + hyps,
         'wall_s': round(wall, 2),
         'violations': len(violations),
     }
